@@ -545,3 +545,51 @@ impl Thread {
         *self == Thread::Disabled
     }
 }
+
+#[cfg(feature = "verif")]
+impl Path {
+    pub(crate) fn verif_snapshot(&self) -> Vec<crate::verif::Branch> {
+        use crate::verif::{Branch, ThreadStatus};
+
+        (0..self.branches.len())
+            .map(|i| {
+                let r = object::Ref::from_usize(i);
+                if let Some(s) = r.downcast::<Schedule>(&self.branches) {
+                    let s = s.get(&self.branches);
+                    Branch::Schedule {
+                        threads: s
+                            .threads
+                            .iter()
+                            .map(|t| match t {
+                                Thread::Disabled => ThreadStatus::Disabled,
+                                Thread::Skip => ThreadStatus::Skip,
+                                Thread::Yield => ThreadStatus::Yield,
+                                Thread::Pending => ThreadStatus::Pending,
+                                Thread::Active => ThreadStatus::Active,
+                                Thread::Visited => ThreadStatus::Visited,
+                            })
+                            .collect(),
+                        preemptions: s.preemptions,
+                        initial_active: s.initial_active,
+                        exploring: s.exploring,
+                    }
+                } else if let Some(l) = r.downcast::<Load>(&self.branches) {
+                    let l = l.get(&self.branches);
+                    Branch::Load {
+                        values: l.values[..l.len as usize].to_vec(),
+                        pos: l.pos,
+                        exploring: l.exploring,
+                    }
+                } else if let Some(s) = r.downcast::<Spurious>(&self.branches) {
+                    let s = s.get(&self.branches);
+                    Branch::Spurious {
+                        spur: s.spur,
+                        exploring: s.exploring,
+                    }
+                } else {
+                    unreachable!()
+                }
+            })
+            .collect()
+    }
+}
